@@ -205,6 +205,9 @@ func (ex *Exec) findLoops() {
 func (st *State) check(name, kind string, t Term, desc string, props []string, pos token.Pos) {
 	ex := st.ex
 	o := &Obl{Name: ex.key + "/" + name, Kind: kind, Desc: desc, Func: ex.key, Path: ex.cur.ID, Props: props, Term: t.S}
+	if !pos.IsValid() && ex.fn != nil {
+		pos = ex.fn.Pos() // e.g. a compiler-generated return: point at the function
+	}
 	if pos.IsValid() {
 		p := ex.prog.SSA.Fset.Position(pos)
 		o.Pos = fmt.Sprintf("%s:%d", p.Filename, p.Line)
